@@ -15,6 +15,12 @@ CHECKS = {
    design_ref="DESIGN.md section 6 C20",
    note=COMMON_NOTE + "Hand-modelled: nothing (tree math is translated). The python copy of the tree spec is used only to search for a failing input.",
    technique="Coq proof over translated source (rs2v) + vm_compute correspondence"),
+ "C12": dict(
+   category="proof",
+   text="Coq theorems (Props/C12.v) over a generic codec model (descriptor universe with structs, enums with default arms, vectors/maps with the zero-progress guard, options, dependent fields): round trip for every well-formed descriptor and value, exact encoded length, decoding consumes a prefix and never runs out of fuel, only minimal varints, length prefixes stay in bounds, canonical decoding (decode then encode gives back the bytes consumed) for every type without a hash map, unique decoding. The descriptor table of all ~135 derive'd wire/state types is regenerated from /repo on every run and re-proved well-formed and canonical. Tie: regeneration + the model decoding (vm_compute) the same ~5k valid and malformed byte strings as the Rust decoders.",
+   design_ref="DESIGN.md section 6 C12",
+   note=COMMON_NOTE + "Hand-modelled: the semantics of mls-rs-codec primitives and of the derive macro (Model/Codec.v) and the hand-written codecs (templates in the translator). Heap use is measured by a counting allocator, not proved. Known finding F7b (hash-map state types re-encode in a different order).",
+   technique="Coq proof over generic codec model + translated type table + vm_compute correspondence"),
 }
 NOT_YET = {}
 props = [json.loads(l) for l in open(os.path.join(V, "properties.jsonl"))]
@@ -48,7 +54,7 @@ m = {
  },
  "engines": [
    {"name": "coq", "path": "/verif/coq", "serves_properties": sorted(CHECKS), "kind_free_text": "Coq 8.16.1 development: Gen (translated), Model, Proofs, Props (pinned theorems)"},
-   {"name": "rs2v", "path": "/verif/translator", "serves_properties": ["C20"], "kind_free_text": "syn-based Rust to Gallina translator, run on every check"},
+   {"name": "rs2v", "path": "/verif/translator", "serves_properties": ["C20", "C12"], "kind_free_text": "syn-based Rust to Gallina translator, run on every check"},
    {"name": "mlsh", "path": "/verif/harness", "serves_properties": sorted(CHECKS), "kind_free_text": "Rust harness over the real library (path deps on /repo, --cfg mls_rs_verif)"},
  ],
  "checks": checks,
